@@ -119,8 +119,52 @@ def tponly_lines(arch, isa):
 
 
 def mk(name, text, arch, isa, fixed, ign, lines=None, marked=None, lcd_timeout=10, kind=""):
+    must_x = []
+    if kind == "tponly" and arch:
+        # instruction texts that the MODEL FILE (read here as plain YAML, not through OSACA's loader) gives no throughput:
+        # they lack performance data whatever the loader makes of a `throughput: ~`, so the report must mark them X
+        ylines = set(yaml_tponly_lines(arch, isa))
+        must_x = sorted(set(l.strip() for l in text.split("\n") if l.strip() in ylines))
     return dict(name=name, text=text, arch=arch, isa=isa, fixed=fixed, ignore_unknown=ign, lines=lines, marked=marked,
-                lcd_timeout=lcd_timeout, kind=kind)
+                lcd_timeout=lcd_timeout, kind=kind, must_x=must_x)
+
+
+_ytponly = {}
+
+
+def yaml_tponly_lines(arch, isa):
+    """like tponly_lines, but from the YAML text of the model file alone (ruamel safe loader): entries with an explicit
+    `throughput: ~`, a latency, and register operands only -- no object of the implementation is involved"""
+    if arch in _ytponly:
+        return _ytponly[arch]
+    import ruamel.yaml
+    out = []
+    try:
+        data = ruamel.yaml.YAML(typ="safe").load(open(models.yaml_path(arch)))
+    except Exception:
+        data = {}
+    for e in (data.get("instruction_forms") or []):
+        try:
+            if "throughput" not in e or e["throughput"] is not None or e.get("latency") is None:
+                continue
+            ops = []
+            for k, o in enumerate(e.get("operands") or []):
+                if o.get("class") != "register":
+                    raise ValueError
+                name = o.get("name") if isa == "x86" else o.get("prefix")
+                if isa == "x86":
+                    ops.append("%%%s%d" % (name, k + 1) if name in ("xmm", "ymm", "zmm") else None)
+                else:
+                    ops.append("%s%d" % (name, k + 1) if name in ("x", "w", "d", "s", "q") else None)
+            if None in ops or not ops:
+                continue
+            names = e["name"] if isinstance(e["name"], list) else [e["name"]]
+            for nm in names:
+                out.append("%s %s" % (str(nm).lower(), ", ".join(ops)))
+        except Exception:
+            continue
+    _ytponly[arch] = out
+    return out
 
 
 def shipped_cases(rng, tier, per_file):
@@ -168,7 +212,7 @@ def gen_body(rng, isa, arch, kind):
         for _ in range(rng.randrange(1, 3)):
             body.insert(rng.randrange(len(body) + 1), P[rng.choice(lt)] if lt else rng.choice(UNKNOWN[isa]))
     elif kind == "tponly":
-        tp = tponly_lines(arch, isa)
+        tp = yaml_tponly_lines(arch, isa) or tponly_lines(arch, isa)
         body = [P[rng.choice(known)] for _ in range(rng.randrange(2, 8))]
         for _ in range(rng.randrange(1, 3)):
             body.insert(rng.randrange(len(body) + 1), rng.choice(tp) if tp else rng.choice(UNKNOWN[isa]))
@@ -222,7 +266,7 @@ def generated_cases(rng, tier, n):
         kind = KINDS[c % len(KINDS)] if c >= 4 else ["long", "long", "long", "fallback"][c]
         if kind == "tponly":                         # a model that has latency-only entries, whenever one exists
             isa = "x86" if (c // len(KINDS)) % 4 != 3 else "aarch64"
-            cand = [a for a in archs_for(isa, tier) if tponly_lines(a, isa)]
+            cand = [a for a in archs_for(isa, tier) if yaml_tponly_lines(a, isa)]
             arch = rng.choice(cand or archs_for(isa, tier))
         if kind == "fallback":
             isa = "aarch64"
